@@ -31,7 +31,8 @@ ASSUMPTIONS = ["native = a spelling the platform's own configuration uses (IOS: 
 def _build(cls_name, text, kwargs):
     import cisco_acl  # pylint: disable=import-outside-toplevel
 
-    if cls_name in ("acls", "addrgroups"):
+    if cls_name in ("acls", "addrgroups", "aces"):
+        kwargs = {k: v for k, v in kwargs.items() if not (cls_name == "aces" and k == "indent")}
         return getattr(cisco_acl, cls_name)(text, **kwargs)
     return getattr(cisco_acl, cls_name)(text, **kwargs)
 
@@ -85,6 +86,9 @@ def _struct(cls_name, text, kwargs):
                     kept.append(item)
                 return (acl["name"], acl["type"], sorted((i["kind"], i["seq"]) for i in kept))
             return (acl["name"], acl["type"], [(i["kind"], i["seq"]) for i in items])
+        if cls_name == "aces":
+            lines = [ln for ln in text.split("\n") if ln.strip() and not ln.strip().startswith("ip access-list")]
+            return [(i["kind"], i["seq"]) for i in (reader.read_item(ln, "extended") for ln in lines)]
         if cls_name == "AceGroup":
             return [(i["kind"], i["seq"]) for i in (reader.read_item(ln, kwargs.get("type", "extended"))
                                                      for ln in text.split("\n") if ln.strip())]
@@ -162,9 +166,9 @@ def execute(ctx, case: dict) -> None:
         m0, m1, m2 = (_meaning(cls_name, t, kwargs) for t in (text, r, r2))
         if m0 is not None and not (m0 == m1 == m2):
             ctx.violation(case, "a re-parse of a foreign spelling changed the meaning", {"input": m0, "r1": m1, "r2": m2})
-    if cls_name in ("acls", "addrgroups"):
+    if cls_name in ("acls", "addrgroups", "aces"):
         ctx.count("config_level_judged")
-        if len(o1) != case.get("n_objects", len(o1)):
+        if cls_name != "aces" and len(o1) != case.get("n_objects", len(o1)):
             ctx.violation(case, "config-level function returned a different number of objects", len(o1))
 
 
@@ -330,7 +334,15 @@ def gen_case(rng):
     kw["indent"] = indent
     if heading and rng.random() < 0.6:
         kw["group_by"] = heading
-    if rng.random() < 0.35:
+    roll = rng.random()
+    if roll < 0.12 and acl_type == "extended" and not kw.get("group_by"):
+        # aces(): every permit/deny/remark line of the configuration, repeated lines included
+        body = text.split("\n")
+        if len(body) > 2 and rng.random() < 0.6:
+            body.insert(rng.randint(2, len(body)), rng.choice(body[1:]))  # the same line twice
+        kw2 = {k: v for k, v in kw.items() if k != "group_by"}
+        return {"cls": "aces", "text": "\n".join(body), "native": True, "kwargs": kw2}
+    if roll < 0.42:
         return {"cls": "acls", "text": text, "native": True, "n_objects": 1, "kwargs": kw}
     return {"cls": "Acl", "text": text, "native": True, "kwargs": kw}
 
